@@ -464,6 +464,16 @@ theorem dbRevive_wf (db : DB) (hdb : DBWF db) (cn id : Nat) : DBWF (dbRevive db 
         exact setCnr_wf db hdb cn c' (revive_wf c hc id c' res heq)
       · exact hdb
 
+theorem dbSyncCounters_wf (db : DB) (hdb : DBWF db) : DBWF (dbSyncCounters db) := by
+  intro b hb
+  unfold dbSyncCounters at hb
+  rw [List.mem_map] at hb
+  obtain ⟨b0, hb0, rfl⟩ := hb
+  have h0 := hdb b0 hb0
+  unfold Cnr.syncCounters
+  simp only
+  split <;> exact ⟨h0.recs, h0.garb⟩
+
 /-- **Every reachable state is well-formed.** -/
 theorem run_wf (ops : List Op) : DBWF (run ops).db := by
   unfold run
@@ -484,5 +494,6 @@ theorem run_wf (ops : List Op) : DBWF (run ops).db := by
     | deleteCnr cn => exact dbDeleteContainer_wf s.db h cn
     | delete cn ids => exact dbDelete_wf s.db h cn ids
     | revive cn id => exact dbRevive_wf s.db h cn id
+    | syncCounters => exact dbSyncCounters_wf s.db h
 
 end NeoFS.Meta
